@@ -44,6 +44,37 @@ def equal(case, impl, model):
     return impl == model
 
 
+def kernel_crosscheck(ctx, limit=100):
+    """a sample of the `braid` cases evaluated by vm_compute inside coqc (closure code, exponent sum, number of cycles of
+    the braid permutation) must equal what the extracted runner printed"""
+    import os
+    import re
+    out = os.path.join(ctx.work, "corr")
+    try:
+        cases = open(os.path.join(out, "cases.txt")).read().splitlines()
+        model = open(os.path.join(out, "model.txt")).read().splitlines()
+    except OSError:
+        return {}, []
+    sel = [(c.split(), m) for c, m in zip(cases, model) if c.startswith("braid ") and len(c.split()) <= 14
+           and "MISMATCH" not in m and "DIVERGE" not in m]
+    step = max(1, len(sel) // limit)
+    ex = []
+    for t, m in sel[::step][:limit]:
+        w = "[" + "; ".join("(%s)%%Z" % x for x in t[2:]) + "]"
+        if m == "P":
+            ex.append(("closure_code %s %s" % (t[1], w), "None"))
+            continue
+        mm = re.fullmatch(r"pd=(\S+) ncr=(\d+) w=(-?\d+) nc=(\d+)", m)
+        if not mm:
+            continue
+        code = "[]" if mm.group(1) == "-" else "[" + "; ".join(
+            "(%s)" % q.strip("[]") for q in mm.group(1).split(";")) + "]"
+        ex.append(("(closure_code %s %s, exponent_sum %s, count_cycles (braid_perm %s %s))" % (t[1], w, w, t[1], w),
+                   "(Some %s, (%s)%%Z, %s)" % (code, mm.group(3), mm.group(4))))
+    pre = ["From Coq Require Import List ZArith Arith.", "Require Import Yui.Model.Link Yui.Model.Braid.", "Import ListNotations."]
+    return C.kernel_examples(ctx, pre, ex)
+
+
 def run(ctx):
     ctx.equal = equal
     obl = C.coq_obligations(ctx.pid, ["Extract/ExtractC18.vo"])
@@ -51,6 +82,12 @@ def run(ctx):
     if ctx.thorough:
         extra.update(C.coqchk(ctx.pid))
     corr = C.correspondence(ctx, "c18", nontrivial)
+    if corr.get("ok"):
+        info, probs = kernel_crosscheck(ctx)
+        extra.update(info)
+        if probs:
+            obl["problems"] = obl.get("problems", []) + probs
+            obl["ok"] = False
     return C.finish(ctx, "proof", obl, corr, RULE, extra_cov=extra, assumptions=ASSUME)
 
 
